@@ -1,4 +1,4 @@
-(* C18 model: memory-info list, CPU-information selection, auxv merge.  Definitions + small proofs. *)
+(* C18 model: memory-info list, CPU-information selection, auxv merge.  Definitions only; the proofs are in MemInfoProofs.v, so the model still builds and runs when a proof about a regenerated table breaks. *)
 From Coq Require Import List NArith Arith Bool.
 From MDW Require Import GenTypes Generated.
 Import ListNotations.
@@ -24,8 +24,6 @@ Definition expected_prot (r w x : bool) : prot :=
   | _, true, false => P_PAGE_READWRITE
   | _, true, true => P_PAGE_EXECUTE_READWRITE
   end.
-Lemma protection_table_correct : forall r w x, lookup_prot r w x = Some (expected_prot r w x).
-Proof. intros [|] [|] [|]; reflexivity. Qed.
 
 Definition MEM_COMMIT : N := 0x1000. Definition MEM_PRIVATE : N := 0x20000. Definition MEM_MAPPED : N := 0x40000.
 Record mi := { mi_base : N; mi_alloc_base : N; mi_alloc_prot : N; mi_size : N; mi_state : N; mi_prot : N; mi_type : N }.
@@ -35,15 +33,14 @@ Definition meminfo_of_line (s e perms : N) : mi :=
   {| mi_base := s; mi_alloc_base := s; mi_alloc_prot := p; mi_size := e - s; mi_state := MEM_COMMIT; mi_prot := p;
      mi_type := if N.testbit perms 4 then MEM_PRIVATE else MEM_MAPPED |}.
 Definition meminfo_list (ls : list (N * N * N)) : list mi := map (fun '(s, e, p) => meminfo_of_line s e p) ls.
-
-Theorem meminfo_one_per_line ls : length (meminfo_list ls) = length ls.
-Proof. unfold meminfo_list. apply map_length. Qed.
-Theorem meminfo_entry s e perms :
-  let m := meminfo_of_line s e perms in
-  mi_base m = s /\ mi_size m = e - s /\
-  mi_prot m = prot_value (expected_prot (N.testbit perms 0) (N.testbit perms 1) (N.testbit perms 2)) /\
-  mi_type m = (if N.testbit perms 4 then MEM_PRIVATE else MEM_MAPPED).
-Proof. unfold meminfo_of_line. rewrite protection_table_correct. cbn. auto. Qed.
+(* the same list computed from the independent table only (no regenerated data): what the property demands.
+   MemInfoProofs.meminfo_list_is_spec proves the two equal; the correspondence check runs both, so that when the
+   regenerated table stops satisfying the theorem the spec side still yields a concrete failing mapping. *)
+Definition meminfo_of_line_spec (s e perms : N) : mi :=
+  let p := prot_value (expected_prot (N.testbit perms 0) (N.testbit perms 1) (N.testbit perms 2)) in
+  {| mi_base := s; mi_alloc_base := s; mi_alloc_prot := p; mi_size := e - s; mi_state := MEM_COMMIT; mi_prot := p;
+     mi_type := if N.testbit perms 4 then MEM_PRIVATE else MEM_MAPPED |}.
+Definition meminfo_list_spec (ls : list (N * N * N)) : list mi := map (fun '(s, e, p) => meminfo_of_line_spec s e p) ls.
 
 (* ---- CPU information: which /proc/cpuinfo lines decide the fields ---- *)
 Inductive cpukey := K_processor | K_model | K_stepping | K_family | K_vendor | K_other.
@@ -65,7 +62,3 @@ Definition cpu_select (ls : list cpuline) : option (N * N * N * list N) :=
 
 (* ---- auxv: caller-supplied (non-zero) values first, the kernel's otherwise ---- *)
 Definition merge_auxv (direct : N) (kernel : option N) : option N := if direct =? 0 then kernel else Some direct.
-Theorem merge_prefers_direct d k : d <> 0 -> merge_auxv d k = Some d.
-Proof. intro H. unfold merge_auxv. apply N.eqb_neq in H. now rewrite H. Qed.
-Theorem merge_falls_back k : merge_auxv 0 k = k.
-Proof. reflexivity. Qed.
